@@ -74,6 +74,8 @@ def make_form(rng, i):
                     c[ec] = f"{ec}.{ln}.{k}"
             if rng.random() < 0.1:
                 c["image"] = f"img.{ln}.{k}.png"
+            if k == n // 2 and rng.random() < 0.12 and not dup_ok:
+                c["name"] = "other"  # the list brings its own 'other' (anywhere in the list): or_other must not add a second one
             if n > 1 and k < n - 1 and rng.random() < 0.08 and "image" not in c:
                 for h in [h for h in c if h.startswith("label")]:
                     del c[h]  # a choice without any label (pyxform only warns): everything after it must stay aligned
@@ -106,7 +108,8 @@ def make_form(rng, i):
             t = f"{st} {ln}"
             meta = {"list": ln, "select": st}
             if ln in search_lists and st != "rank":
-                cells["appearance"] = f"search('file_{ln}')"
+                cells["appearance"] = rng.choice([f"search('file_{ln}')", f"minimal search('file_{ln}')", f"quick search('file_{ln}', 'matches', 'name', 'x')",
+                                                  f"search('file_{ln}') compact"])
                 meta["search"] = True
             elif ln in search_lists:
                 ln2 = [x_ for x_ in lists if x_ not in search_lists]
